@@ -242,6 +242,19 @@ func runC06AddMount(r *Rng, n, idBase int) {
 			}
 			routes = append(routes, fmt.Sprintf("(%s, %s, %s)", cStr(q), cNat(idx), cStr(sub)))
 		}
+		// MountPoints() lists exactly the points that were accepted
+		{
+			var got []string
+			for _, mp := range w.m.MountPoints() {
+				got = append(got, mp.Path)
+			}
+			want := append([]string(nil), w.points...)
+			sort.Strings(got)
+			sort.Strings(want)
+			if fmt.Sprint(got) != fmt.Sprint(want) {
+				c.fail(fmt.Sprintf("%s: MountPoints() = %v, the accepted mount points are %v", c.Text[0], got, want), "addmount:mountpoints")
+			}
+		}
 		var ptsC []string
 		npts := len(w.points)
 		if err == nil {
